@@ -33,7 +33,7 @@ def functions():
 def configs(tier):
     out = []
     E = 3 if tier == 'quick' else 5
-    gl = list(graphs.G3) + (['P4', 'S3', 'C4'] if tier == 'thorough' else [])
+    gl = list(graphs.G3) + ['K2loop', 'P3loop'] + (['P4', 'S3', 'C4'] if tier == 'thorough' else [])
     for g in gl:
         n, edges = graphs.ALL[g]
         for I0, _ in graphs.automorphism_reduced_ics(g, with_recovered=False):
